@@ -129,13 +129,13 @@ def post_explore(ctx, res, pids, opts):
     goal_in_graph = any(model.goal(ctx.decode(k, s.tensor)) for s, k in zip(res["order"], res["seen"].keys()))
     ms, plan = model.closure_plan()
     verdict = model.goal(ms)
+    mismatch = 0
     if verdict != goal_in_graph:
-        raise HarnessError(f"{ctx.name}: closure oracle says solvable={verdict} but the complete state graph "
-                           f"{'contains' if goal_in_graph else 'does not contain'} a goal state")
+        mismatch = 1
     # the closure state must be the unique maximal state of the graph
-    if ms not in {ctx.decode(k, s.tensor) for s, k in zip(res["order"], res["seen"].keys())}:
-        raise HarnessError(f"{ctx.name}: closure state of the model is not a reachable state of the implementation")
-    return {"crosschecked": 1, "solvable": int(verdict)}
+    elif not res.get("capped") and ms not in {ctx.decode(k, s.tensor) for s, k in zip(res["order"], res["seen"].keys())}:
+        mismatch = 1
+    return {"crosschecked": 1, "solvable": int(verdict), "oracle_mismatch": mismatch}
 
 
 def run(pid, tier):
@@ -143,10 +143,13 @@ def run(pid, tier):
     import_nasim()
     import nasim
     # ---- (3) oracle validation on complete graphs
-    agg, _, errors = run_family(["C16"], "quick", {"post": ["chk_solvable"]})
+    from .family import family as _fam
+    complete = [e for e in _fam("quick") if not e[0].get("_path_only")]
+    agg, _, errors = run_family(["C16"], "quick", {"post": ["chk_solvable"]}, entries=complete)
     if errors:
         raise HarnessError("; ".join(errors[:3]))
     cross = agg.get("extra", {}).get("chk_solvable", {})
+    oracle_mismatches = int(cross.get("oracle_mismatch", 0))
     # ---- shipped files
     violations, shipped_ok = [], 0
     for n in SHIPPED_ALL:
@@ -173,9 +176,14 @@ def run(pid, tier):
         "generator_executions_without_scenario(C15 matter)": sum(r["not_returned"] for r in results),
         "oracle_crosschecked_on_complete_state_graphs": int(cross.get("crosschecked", 0)),
         "of_which_solvable": int(cross.get("solvable", 0)),
+        "oracle_vs_graph_mismatches": oracle_mismatches,
         "bound": "generator: deviation bound 1 over the parameter grid; plans replayed through step() with forced-success draws",
         "note": "states/transitions = scenarios decided / plans replayed",
     }
+    if oracle_mismatches and not violations:
+        # model closure and complete state graph disagree on a family scenario and nothing concrete was found on
+        # generated / shipped scenarios: either the oracle or the dynamics is wrong - not a pass, not a violation
+        raise HarnessError(f"closure oracle disagrees with the complete state graph on {oracle_mismatches} family scenario(s)")
     assume = ["'provided its stochastic actions succeed': every draw is forced below the action's probability; probability-0 actions are never used by a plan",
               "the closure is the unique maximal state because the model is monotone (validated against complete state graphs of the family)"]
     return finish(pid, tier, cov, violations, assume, t0)
